@@ -610,12 +610,25 @@ func main() {
 	})
 	runOne := func(id int, corr bool) {
 		c := genCase(root.Fork(uint64(id)), id)
+		if id >= 2 { // driving modes the model cannot see: caller-owned containers, a reload in progress
+			kit.Decorate(root.Fork(uint64(id)).Fork(0xDEC0), &c)
+		}
 		cur = c
 		kit.Beat()
 		clk.SetMs(clk0)
 		obs, finals, _ := kit.Run("c05", c, clk)
 		rep.Evaluations++
 		mr := monitor(c, obs, rep)
+		for _, is := range kit.LastIssues {
+			failOnce(rep, c, "C05_independence", is.Sig, is.Detail)
+		}
+		if c.Reuse {
+			rep.Count("cases_caller_reuses_arg_slice_and_attachment_map", 1)
+		}
+		if c.Reload != nil {
+			rep.Count("cases_with_reload_in_progress", 1)
+			rep.Count("ops_decided_inside_a_reload", c.Reload.N)
+		}
 		if mr.nontrivial {
 			b, _ := json.Marshal(c)
 			dist.Add(string(b))
